@@ -44,6 +44,8 @@ pub struct Globals {
     pub export_parse_float: bool,
     /// rule 28: `struct StackVec { data: [MaybeUninit<Limb>; BIGINT_LIMBS], length: u16 }`
     pub stackvec_ok: Result<(), String>,
+    /// rule 31: `struct HeapVec { data: Vec<Limb> }`
+    pub heapvec_ok: Result<(), String>,
 }
 
 impl Globals {
@@ -201,6 +203,8 @@ pub struct Cx<'a> {
     pub float_param: bool,
     /// rules 28-30: the cell-level translation of stackvec.rs / `shl_limbs`
     pub raw_mode: bool,
+    /// rule 31: heapvec.rs over the std `Vec` primitives
+    pub heap_mode: bool,
 }
 
 pub fn vname(x: &str) -> String {
@@ -234,6 +238,7 @@ impl<'a> Cx<'a> {
             assign_log: vec![],
             float_param: false,
             raw_mode: false,
+            heap_mode: false,
         }
     }
 
@@ -748,7 +753,7 @@ impl<'a> Cx<'a> {
                     syn::Member::Named(id) => {
                         let fl = id.to_string();
                         // single-field structs are their field (rule 14)
-                        if (vt == Ty::Big && fl == "data") || (vt == Ty::RView && fl == "inner") {
+                        if (vt == Ty::Big && fl == "data") || (vt == Ty::RView && fl == "inner") || (vt == Ty::Hv && fl == "data") {
                             return Ok(Place::Var(x));
                         }
                         Ok(Place::Field(x, fl))
@@ -914,12 +919,15 @@ impl<'a> Cx<'a> {
                 }
             }
         }
-        if self.raw_mode {
-            // rule 28: `VecType` / `Self` = `raw`; `bigint::Limb` = u64
+        if self.raw_mode || self.heap_mode {
+            // rule 28: `VecType` / `Self` = `raw` (rule 31: `Self` = `HeapVec`); `bigint::Limb` = u64
+            let own = if self.raw_mode { Ty::Raw } else { Ty::Hv };
             let text: String = quote::quote!(#t).to_string().chars().filter(|c| !c.is_whitespace()).collect();
             match text.trim_start_matches('&').trim_start_matches("mut") {
-                "VecType" | "Self" | "StackVec" => return Ok(Ty::Raw),
-                "Option<Self>" => return Ok(Ty::Opt(Box::new(Ty::Raw))),
+                "VecType" | "StackVec" if self.raw_mode => return Ok(Ty::Raw),
+                "HeapVec" if self.heap_mode => return Ok(Ty::Hv),
+                "Self" => return Ok(own),
+                "Option<Self>" => return Ok(Ty::Opt(Box::new(own))),
                 "bigint::Limb" => return Ok(Ty::Int(IntTy::U64)),
                 "Option<bigint::Limb>" => return Ok(Ty::Opt(Box::new(Ty::Int(IntTy::U64)))),
                 "[bigint::Limb]" => return Ok(Ty::Slice),
